@@ -155,6 +155,12 @@ CASES = [
     ("benign-corner-factor", ["C18"], "velocity.py", "    prefactor = 4 * plate_speed / (np.pi * (h**2 + v**2) ** 2)", "    r2 = h**2 + v**2\n    prefactor = 4 * plate_speed / (np.pi * r2 * r2)", B),
     ("benign-config-local", ["C19"], "io.py", "    n_provided = len(_params[\"disl_coefficients\"])", "    coeffs = _params[\"disl_coefficients\"]\n    n_provided = len(coeffs)", B),
     ("benign-gbs-where", ["C09", "C01"], "utils.py", "    fractions[mask] = gbs_threshold / n_grains\n", "    fractions[:] = np.where(mask, gbs_threshold / n_grains, fractions)\n", B),
+    ("benign-density-sigma-local", ["C20"], "stats.py", "    X_counters, Y_counters = _geo.lambert_equal_area(x_counters, y_counters, z_counters)", "    projected = _geo.lambert_equal_area(x_counters, y_counters, z_counters)\n    X_counters, Y_counters = projected", B),
+    ("benign-mindex-bins-local", ["C14"], "diagnostics.py", "θmax = _stats._max_misorientation(system)", "θmax = _stats._max_misorientation(system)  # maximum misorientation angle of the system", B),
+    ("benign-mineral-save-keys", ["C17"], "minerals.py", "                for key in data.keys():", "                for key in list(data):", B),
+    ("benign-update-all-enumerate", ["C06", "C08"], "minerals.py", "    for i, mineral in enumerate(minerals):\n        # Deformation gradient is independent of mineral phase.\n", "    for mineral in minerals:\n", B),
+    ("benign-crss-dict", ["C02", "C07"], "core.py", "            case MineralFabric.olivine_B:\n                return np.array([3, 2, 1, np.inf])", "            case MineralFabric.olivine_B:\n                return np.asarray([3.0, 2.0, 1.0, np.inf])", B),
+    ("benign-extract-vars-names", ["C01", "C09"], "utils.py", "    fractions /= fractions.sum()\n    return deformation_gradient, orientations, fractions", "    total = fractions.sum()\n    fractions = fractions / total\n    return deformation_gradient, orientations, fractions", B),
     ("benign-is-inside-all", ["C18"], "pathlines.py", "    if np.any(np.array(point) < min_coords) or np.any(np.array(point) > max_coords):\n        return False\n    return True", "    p = np.array(point)\n    return bool(np.all(p >= min_coords) and np.all(p <= max_coords))", B),
     ("benign-ivp-func-else", ["C18"], "pathlines.py", "    if _is_inside(point, min_coords, max_coords):\n        return get_velocity(np.nan, point)\n    return np.zeros_like(point)", "    inside = _is_inside(point, min_coords, max_coords)\n    if not inside:\n        return np.zeros_like(point)\n    return get_velocity(np.nan, point)", B),
     ("benign-pathline-kwargs-loop", ["C18"], "pathlines.py", "        try:\n            kwargs.pop(key)\n        except KeyError:\n            continue\n        else:\n            _log.warning(\"ignoring illegal keyword argument: %s\", key)", "        if key in kwargs:\n            del kwargs[key]\n            _log.warning(\"ignoring illegal keyword argument: %s\", key)", B),
